@@ -29,6 +29,8 @@ import os
 sys.path.insert(0, os.path.dirname(os.path.abspath(__file__)))
 from rustlex import lex, match_close, norm, find_blocks, item_start, ExtractError, OPEN, CLOSE  # noqa
 
+CANARY = False   # vacuity guard: add `ensures false` to every extracted function (must then FAIL)
+
 TRACING = {"info", "warn", "debug", "error", "trace"}
 MUTATING = {"insert", "push", "remove", "set", "clear", "pop", "push_str", "extend", "drain",
             "retain", "take", "replace", "swap", "inc", "append", "reset"}
@@ -360,6 +362,31 @@ def rewrite_body(S, b0, b1, opts, log):
             raise ExtractError(f"lost anchor: subst `{old}` matches {text.count(old)} times")
         text = text.replace(old, new)
         log.append({"rule": "R-site", "note": f"`{old}` -> `{new}`"})
+    # ghost proof blocks (erased by Verus; never change executable behaviour)
+    for pr in opts.get("proofs", []):
+        a = pr["anchor"]
+        if text.count(a) != 1:
+            raise ExtractError(f"lost anchor: proof anchor `{a}` matches {text.count(a)} times")
+        k = text.index(a)
+        block = "proof {\n" + pr["text"] + "}\n"
+        if pr["where"] == "proof_before":
+            text = text[:k] + block + text[k:]
+        else:
+            # after the end of the statement containing the anchor: next `;` at nesting depth 0
+            d, j = 0, k
+            while j < len(text):
+                c = text[j]
+                if c in "([{":
+                    d += 1
+                elif c in ")]}":
+                    d -= 1
+                elif c == ";" and d == 0:
+                    break
+                j += 1
+            if j >= len(text):
+                raise ExtractError(f"proof_after `{a}`: no statement end found")
+            text = text[:j + 1] + "\n" + block + text[j + 1:]
+        log.append({"rule": "R4", "note": f"ghost proof block {pr['where']} `{a}`"})
     return text
 
 
@@ -406,6 +433,12 @@ def emit_fn(root, d, log_all):
     attrs = "".join(a + "\n" for a in d.get("attrs", []))
     spec = d.get("spec", "")
     out = f"{attrs}{vis}{head}{ret}{wh}\n{spec}\n{body}\n"
+    if CANARY and not d.get("nopub"):
+        # vacuity guard: a renamed copy with `false` among its ensures; callees keep their real
+        # contracts, so the copy must FAIL unless the precondition is contradictory
+        cname = d.get("rename", d["name"]) + "__canary"
+        chead = re.sub(r"\bfn\s+" + re.escape(d.get("rename", d["name"])) + r"\b", "fn " + cname, head, count=1)
+        out += f"{attrs}{vis}{chead}{ret}{wh}\n{add_false_ensures(spec)}\n{body}\n"
     meta = {
         "id": (d["impl"] + "::" if d["impl"] != "-" else "") + d.get("rename", d["name"]),
         "file": d["file"],
@@ -429,6 +462,24 @@ def apply_slice(body, d, log):
     seg = body[i:j]
     log.append({"rule": "R10", "note": f"slice between `{a}` and `{b}` ({seg.count(chr(10))} lines)"})
     return "{\n" + seg + d.get("slice_tail", "") + "\n}"
+
+
+def add_false_ensures(spec):
+    """vacuity canary: the function must no longer verify once `false` is among its ensures"""
+    toks = lex(spec)
+    has_ens = any(t.kind == "ident" and t.text == "ensures" for t in toks)
+    dec = [t for t in toks if t.kind == "ident" and t.text == "decreases"]
+    cut = dec[0].start if dec else len(spec)
+    head, tail = spec[:cut].rstrip(), spec[cut:]
+    if has_ens:
+        if not head.endswith(","):
+            head += ","
+        head += "\n        false,\n"
+    else:
+        if head and not head.endswith(","):
+            head += ","
+        head += "\n        ensures false,\n"
+    return head + tail
 
 
 def count_clauses(text):
@@ -573,6 +624,12 @@ def parse_template(path):
                     raise ExtractError(f"{path}:{i+1}: bad slice")
                 cur["slice"] = (m.group(1), m.group(2))
                 cur["slice_tail"] = m.group(3) or ""
+            elif cmd.startswith("proof_after ") or cmd.startswith("proof_before "):
+                m = re.match(r"(proof_after|proof_before)\s+<<(.*)>>\s*$", cmd)
+                if not m:
+                    raise ExtractError(f"{path}:{i+1}: bad {cmd.split()[0]}")
+                cur.setdefault("proofs", []).append({"where": m.group(1), "anchor": m.group(2), "text": ""})
+                mode = ("proof", len(cur["proofs"]) - 1)
             elif cmd == "spec":
                 mode = "spec"
             elif cmd.startswith("loop "):
@@ -591,6 +648,8 @@ def parse_template(path):
                 out.append(("text", ln))
             elif mode == "spec":
                 cur["spec"] += ln + "\n"
+            elif isinstance(mode, tuple) and mode[0] == "proof":
+                cur["proofs"][mode[1]]["text"] += ln + "\n"
             elif isinstance(mode, tuple):
                 cur["loops"][mode[1]]["text"] += ln + "\n"
             elif st:
